@@ -54,7 +54,7 @@ def make_case(idx):
         elif k < 0.9:
             keys, cls = gen.vi_edit(R, kind, filters=False)
             if cls == 'ex':
-                keys = R.choice([':d\n', ':s/a/A/\n', ':pu\n', ':2\n', ':$\n', ':1,2d\n', ':u\n'])
+                keys = R.choice([':d\n', ':s/a/A/\n', ':pu\n', ':2\n', ':$\n', ':1,2d\n', ':u\n', ':1d|s/zzzz/y/\n', ':s/$/!/|99p\n', ':$d|nosuchcmd\n', ':pu|/zzzz/\n'])
             prog.append(keys)
         elif k < 0.95:
             prog.append(R.choice(['u', '\x12', 'u', '.']))
